@@ -82,7 +82,30 @@ def gen_case(rng):
             rng.shuffle(l)
             d["order"] = {"type": "explicit", "element_ids": l[: rng.randint(0, len(l))]}
         tr[name] = d
+    # round-5 families: (a) a sort-by-value order on one dimension (the sort helpers have their own
+    # subtotal-pruning hook); (b) every base vector of one dimension empty while the OTHER carries subtotals
+    if rng.random() < 0.35 and all(v is not None and v.kind != "datetime" for v in dimvars):
+        ax = rng.randrange(len(dimvars))
+        v = dimvars[ax]
+        o = rng.choice([{"type": "label"}, {"type": "label", "direction": "ascending"},
+                        {"type": "payload_order"}]
+                       + ([{"type": "univariate_measure", "measure": "count_unweighted"}] if len(dimvars) == 1 else [])
+                       + ([{"type": "opposing_element", "measure": rng.choice(["col_percent", "row_percent", "count_unweighted"]),
+                            "element_id": rng.choice(sc.element_keys(dimvars[1 - ax]) + [987])}] if len(dimvars) == 2 and sc.element_keys(dimvars[1 - ax]) else []))
+        tr[names[ax]]["order"] = o
     case["transforms"] = tr
+    if rng.random() < 0.25 and survey:
+        # empty the whole table (nobody answers the last variable validly) or drop everybody
+        v = vars_[-1]
+        if not v.is_array and len(v.valid_cat_pos) < len(v.cats) and rng.random() < 0.6:
+            mpos = [i for i in range(len(v.cats)) if i not in v.valid_cat_pos][0]
+            survey = [(w, ans[:-1] + [[mpos]]) for w, ans in survey]
+        else:
+            survey = []
+        case["survey"] = gen.survey_to_json(survey)
+        for name in tr:
+            if rng.random() < 0.8:
+                tr[name]["prune"] = True
     # a numeric-measure response carrying only WEIGHTED valid counts: emptiness still comes from the unweighted
     # respondent counts (result.counts), never from the weighted valid counts
     if case["weighted"] and "ca" not in kinds and rng.random() < 0.2:
@@ -91,7 +114,7 @@ def gen_case(rng):
 
 
 def generate(ctx):
-    return [gen_case(ctx.rng) for _ in range(ctx.n(200, 3000))]
+    return [gen_case(ctx.rng) for _ in range(ctx.n(450, 4000))]
 
 
 def lean_ops(case):
